@@ -189,6 +189,10 @@ func branchPattern(r *rand.Rand, forMessage bool, inspect bool) (interface{}, bo
 		case 9:
 			return map[string]interface{}{"k": "??ok", "t": "??ot", "uid": "?u"}, true
 		case 0:
+			if r.Intn(3) == 0 {
+				// a bare scalar constant: matches the message that is that scalar
+				return []interface{}{"go", 5.0, true}[r.Intn(3)], true
+			}
 			return "?m", true
 		case 1:
 			return map[string]interface{}{"k": "?v"}, true
@@ -352,6 +356,14 @@ func GenMessage(r *rand.Rand, uid string, targets []string) interface{} {
 		}
 	}
 	return m
+}
+
+// GenAnyMessage is GenMessage, except that one message in eight is a bare scalar.
+func GenAnyMessage(r *rand.Rand, uid string, targets []string) interface{} {
+	if r.Intn(8) == 0 {
+		return []interface{}{"go", 5.0, true, "other"}[r.Intn(4)]
+	}
+	return GenMessage(r, uid, targets)
 }
 
 // oddTarget: what a variable branch target ("@t") may find bound instead of a node name.
